@@ -236,15 +236,6 @@ macro_rules! case_fn {
                 out.cam64 = Some(got);
             } else if !is32 {
                 out.cam64 = Some(got);
-            } else if let Some(c64) = out.cam64 {
-                // f32 describes the same colour as f64: judged where the problem is well conditioned, in XYZ, through the f64 inverse
-                let (la, yb) = (cond.la, cond.yb);
-                let _ = (la, yb);
-                m.eval();
-                let j_ok = (got[0] - c64[0]).abs() <= 2e-3 * (1.0 + c64[0].abs()) && (got[3] - c64[3]).abs() <= 2e-3 * (1.0 + c64[3].abs());
-                if !j_ok {
-                    m.violate(inst, "f32_lightness_or_brightness_differs_from_f64", inp(), fvec(&got), fvec(&c64), "");
-                }
             }
             // ---- round trip through the full type and every partial
             let tol_rt = if is32 { 1e-3 * scale } else { 1e-9 * scale };
